@@ -134,7 +134,16 @@ def revert_controls(pid, repo):
         diff = subprocess.run(["git", "-C", repo, "show", "--format=", h, "--", "qsopt_ex", "esolver"], capture_output=True, text=True)
         if diff.returncode != 0 or not diff.stdout.strip():
             continue
-        entry = {"seed": "revert of fix %s" % h, "expected_rules": sorted(want)}
+        # a later fix can make an earlier one redundant for the property (a caller now validates what the callee validated):
+        # the entry then names the later fix as [revert-with <hash>] and both are reverted, later one first
+        more = re.findall(r"\[revert-with ([0-9a-f]{7,12})\]", line)
+        diffs = []
+        for h2 in more:
+            d2 = subprocess.run(["git", "-C", repo, "show", "--format=", h2, "--", "qsopt_ex", "esolver"], capture_output=True, text=True)
+            if d2.returncode == 0 and d2.stdout.strip():
+                diffs.append(d2.stdout)
+        diffs.append(diff.stdout)
+        entry = {"seed": "revert of fix %s%s" % (h, "".join(" + %s" % x for x in more)), "expected_rules": sorted(want)}
         tmp = tempfile.mkdtemp(prefix="qsa-rev-", dir="/var/tmp")
         try:
             files = subprocess.run(["git", "-C", repo, "ls-files"], capture_output=True, text=True).stdout.split()
@@ -144,7 +153,10 @@ def revert_controls(pid, repo):
                     os.makedirs(os.path.dirname(os.path.join(tmp, fn)) or tmp, exist_ok=True)
                     shutil.copy(src, os.path.join(tmp, fn))
             # strict reverse application (no fuzz, no "unreversed patch" guessing): a fix that later commits built upon is skipped
-            r = subprocess.run(["git", "apply", "-R", "--whitespace=nowarn", "-"], input=diff.stdout, capture_output=True, text=True, cwd=tmp)
+            for dtxt in diffs:
+                r = subprocess.run(["git", "apply", "-R", "--whitespace=nowarn", "-"], input=dtxt, capture_output=True, text=True, cwd=tmp)
+                if r.returncode != 0:
+                    break
             if r.returncode != 0:
                 entry["result"] = "skipped: the fix can no longer be reverted on the current tree"
                 out.append(entry)
